@@ -73,8 +73,8 @@ def hStep : Handler := fun op j =>
                  else lawOfMassActionRatesK conc keys (rs.zip kinds)
       match j.getObjVal? "as_generator" with
       | .ok (.bool true) =>
-        -- dCdt_list(rsys, <generator>): the generator is only consumed by subscripting, which is a TypeError
-        pure (showExceptList (dCdtListOfGenerator keys rs : Except Err (List Rat)))
+        -- dCdt_list(rsys, <generator>): rates = list(rates), then the ordinary loop
+        pure (showExceptList (dCdtListOfGenerator keys rs res))
       | _ => pure (showExceptList res)
   | "parse_refusal" => do
       pure (parseRefusal (← getStrList j "keys") (← getStr j "line"))
